@@ -20,7 +20,7 @@ Theorem C10_source_facts :
   array_check_descends_into_members = true /\ name_map_filled_after_cfg = true /\ all_modules_initialised = true /\
   registers_only_created = true /\
   exit_on_errors = true /\ merge_first_wins_and_tags = true /\ mod_wraps_bare_values = true /\
-  checked_value_props = [k_constant; k_default; k_value] /\
+  checked_value_props = [k_value; k_default; k_constant] /\ properties_applied_before_value_checks = true /\
   map mp_name base_mprops = map s_ ["export"; "group"; "description"; "meaning"; "visibility"; "implementation";
     "interface_classes"; "features"; "pollinterval"; "slowinterval"; "omit_unchanged_within"; "original_id"]%string /\
   map (pprop_type module_props) [k_export; k_group; k_description; k_visibility; k_original_id] =
@@ -46,21 +46,24 @@ Proof. repeat split; vm_compute; reflexivity. Qed.
 
 (* the CONFIGURED datatype of a parameter: `configured_dt d u en` is the class-level datatype d (unit u) with the datatype
    overrides among the items en of a Param dict applied in dict order (Lemmas.v: fold of datatype.setProperty over the keys
-   that are no Parameter property).
+   that are no Parameter property).  Since 8b6cdcd Module._add_accessible applies ALL properties of the entry first and
+   checks value, default and constant afterwards (obligations properties_applied_before_value_checks, checked_value_props):
+   they are checked by the configured datatype of the WHOLE entry, wherever they stand in the dict.
 
-   Param(v, kw) - the dict config.Param builds is `param_dict (Some v) kw` = kw ++ [(value, v)]: the overrides in the
-   order they are written, `value` LAST (first line of the proof; obligation param_value_appended_after_overrides).
-   For ALL classes C, configurations c, parameters p, values v and keyword lists kw (any overrides, in any order; `value`
-   cannot be among them because it is the positional parameter of Param):
+   Param(v, kw) - the dict config.Param builds is `param_dict (Some v) kw` = kw ++ [(value, v)] (first clause; obligation
+   param_value_appended_after_overrides; the position of `value` no longer matters for the check).
+   For ALL classes C, configurations c, parameters p, values v and keyword lists kw (a dict: distinct keys, `value` is the
+   positional parameter of Param and not among them):
    - the module is created only if v is a value of the configured datatype dcfg = d with ALL overrides of the same Param
      applied, the instance carries dcfg and the start value is v converted with dcfg (the code converts twice);
    - a v that dcfg does not accept rejects the configuration as a whole (no instance), and the error list names
-     `<p>.value` whenever the overrides themselves could be applied;
-   - a v that dcfg accepts is not refused: the step of this accessible ends without error, with the converted value as
-     start value and the raw value registered for the write method. *)
+     `<p>.value` whenever the properties themselves could be applied;
+   - a v that dcfg accepts is not refused: when a configured default / constant is a value of dcfg too, the step of this
+     accessible ends without error, with the converted value as start value and the raw value registered for the write
+     method. *)
 Theorem C10_value_checked_against_configured_datatype : forall C c p d v kw,
   In p (c_params C) -> p_optional p = false -> p_iscmd p = false -> p_dt p = Some d ->
-  assoc_str k_value kw = None ->
+  assoc_str k_value kw = None -> NoDup (map fst kw) ->
   assoc_str (p_name p) c = Some (CDict (param_dict (Some v) kw)) ->
   param_dict (Some v) kw = kw ++ [(k_value, v)] /\
   exists dcfg, configured_dt d (p_unit p) kw = Some dcfg /\
@@ -72,44 +75,42 @@ Theorem C10_value_checked_against_configured_datatype : forall C c p d v kw,
     (forall e es p1, conv dcfg v = Err e -> is_bad_value e = true -> apply_entry_keep p kw = (p1, PGo p1) ->
        mod_init C c = Rejected es -> In (ErrBadValue (p_name p) k_value) es) /\
     (forall c1 p1 mexp, conv dcfg v = Ok c1 -> apply_entry_keep p kw = (p1, PGo p1) ->
+       (forall k v', In k [k_default; k_constant] -> assoc_str k kw = Some v' -> exists c', conv dcfg v' = Ok c') ->
        exists a, acc_step mexp p (Some (CDict (param_dict (Some v) kw))) = Some a /\ a_errs a = [] /\
          p_dt (a_param a) = Some dcfg /\ p_value (a_param a) = Some c1 /\
          a_write a = (if p_has_write p then Some v else None)).
 Proof.
-  intros C c p d v kw Hin Ho Hc Hd Hkw Hcfg. split; [apply param_dict_some; exact Hkw|].
+  intros C c p d v kw Hin Ho Hc Hd Hkw ND Hcfg. split; [apply param_dict_some; exact Hkw|].
   eapply value_checked; eassumption.
 Qed.
 
-(* the general form, for a `value` at ANY position of a cfg entry (a dict built by other means than Param): the value is
-   checked by the datatype configured by the items BEFORE it (dv), the instance carries the datatype configured by all
-   items (d') and the start value is the conversion by d' (start_value: announceUpdate converts, Parameter.finish converts
-   again and clears a value that does not convert); with a write wrapper the raw value is in writeDict *)
-Theorem C10_value_applied : forall C c i p d pre v rest,
+(* order independent: a `value` anywhere in a cfg entry en (a dict: distinct keys) of a created module is a value of the
+   datatype configured by the WHOLE entry (d'), the instance carries d' and the start value is v converted with d' (twice:
+   announceUpdate and Parameter.finish); with a write wrapper the raw value is in writeDict *)
+Theorem C10_value_applied : forall C c i p d en v,
   mod_init C c = Created i -> In p (c_params C) -> p_optional p = false -> p_iscmd p = false -> p_dt p = Some d ->
-  assoc_str (p_name p) c = Some (CDict (pre ++ (k_value, v) :: rest)) -> ~ In k_value (map fst rest) ->
-  exists p' dv d' c1, In p' (i_params i) /\ p_name p' = p_name p /\
-    configured_dt d (p_unit p) pre = Some dv /\ conv dv v = Ok c1 /\
-    configured_dt d (p_unit p) (pre ++ (k_value, v) :: rest) = Some d' /\ p_dt p' = Some d' /\
-    p_value p' = start_value d' v /\
+  assoc_str (p_name p) c = Some (CDict en) -> NoDup (map fst en) -> In (k_value, v) en ->
+  exists p' d' c1, In p' (i_params i) /\ p_name p' = p_name p /\
+    configured_dt d (p_unit p) en = Some d' /\ p_dt p' = Some d' /\ conv d' v = Ok c1 /\
+    p_value p' = match conv d' c1 with Ok c2 => Some c2 | Err _ => None end /\
     (p_has_write p = true -> In (p_name p, v) (i_write i)).
 Proof.
-  intros C c i p d pre v rest H Hin Ho Hc Hd Hcfg Hn.
-  destruct (value_applied _ _ _ _ _ _ _ _ H Hin Ho Hc Hd Hcfg Hn) as [p' [dv [d' [c1 [A [B [D [E [F [G [I [J _]]]]]]]]]]]].
-  exists p', dv, d', c1. auto 10.
+  intros C c i p d en v H Hin Ho Hc Hd Hcfg ND Hv.
+  destruct (value_applied _ _ _ _ _ _ _ H Hin Ho Hc Hd Hcfg ND Hv) as [p' [d' [c1 [A [B [D [E [F [G [I _]]]]]]]]]].
+  exists p', d', c1. auto 10.
 Qed.
 
-(* ... which is the converted value itself whenever the items after the value change no datatype property that matters
-   (dv and d' convert alike) and converting a converted value changes nothing *)
-Corollary C10_value_applied_idempotent : forall C c i p d pre v rest,
+(* ... which is the converted value itself whenever converting a converted value changes nothing *)
+Corollary C10_value_applied_idempotent : forall C c i p d en v,
   mod_init C c = Created i -> In p (c_params C) -> p_optional p = false -> p_iscmd p = false -> p_dt p = Some d ->
-  assoc_str (p_name p) c = Some (CDict (pre ++ (k_value, v) :: rest)) -> ~ In k_value (map fst rest) ->
-  exists p' d', In p' (i_params i) /\ p_name p' = p_name p /\ p_dt p' = Some d' /\
-    forall c1, conv d' v = Ok c1 -> conv d' c1 = Ok c1 -> p_value p' = Some c1.
+  assoc_str (p_name p) c = Some (CDict en) -> NoDup (map fst en) -> In (k_value, v) en ->
+  exists p' d' c1, In p' (i_params i) /\ p_name p' = p_name p /\ p_dt p' = Some d' /\ conv d' v = Ok c1 /\
+    (conv d' c1 = Ok c1 -> p_value p' = Some c1).
 Proof.
-  intros C c i p d pre v rest H Hin Ho Hc Hd Hcfg Hn.
-  destruct (value_applied _ _ _ _ _ _ _ _ H Hin Ho Hc Hd Hcfg Hn) as [p' [dv [d' [c1 [A [B [_ [_ [_ [G [I _]]]]]]]]]]].
-  exists p', d'. split; [exact A|split; [exact B|split; [exact G|]]].
-  intros c2 E1 E2. rewrite I. unfold start_value. rewrite E1, E2. reflexivity.
+  intros C c i p d en v H Hin Ho Hc Hd Hcfg ND Hv.
+  destruct (value_applied _ _ _ _ _ _ _ H Hin Ho Hc Hd Hcfg ND Hv) as [p' [d' [c1 [A [B [_ [E [F [G _]]]]]]]]].
+  exists p', d', c1. split; [exact A|split; [exact B|split; [exact E|split; [exact F|]]]].
+  intros E2. rewrite G, E2. reflexivity.
 Qed.
 
 (* overrides of limits and unit only (min / max / unit besides Parameter properties - the common case) never change the
@@ -177,12 +178,12 @@ Qed.
 (* ... applied to a configured value: the driver method of a parameter with a configured value receives exactly that
    value, validated by the datatype of the instance, exactly once before the first poll (nothing when it does not
    validate: open finding, or when the write wrapper has no driver method behind it) *)
-Theorem C10_configured_value_written_exactly_once : forall C c i p d pre v rest,
+Theorem C10_configured_value_written_exactly_once : forall C c i p d en v,
   mod_init C c = Created i -> In p (c_params C) -> p_optional p = false -> p_iscmd p = false -> p_dt p = Some d ->
-  assoc_str (p_name p) c = Some (CDict (pre ++ (k_value, v) :: rest)) -> ~ In k_value (map fst rest) ->
+  assoc_str (p_name p) c = Some (CDict en) -> NoDup (map fst en) -> In (k_value, v) en ->
   NoDup (map p_name (active (c_params C))) -> p_has_write p = true ->
   exists p' d', find_param (p_name p) (i_params i) = Some p' /\ p_dt p' = Some d' /\
-    configured_dt d (p_unit p) (pre ++ (k_value, v) :: rest) = Some d' /\
+    configured_dt d (p_unit p) en = Some d' /\
     has_thread i = true /\
     writes_for (p_name p) (startup i) = match valid d' v with Ok x => if p_wfunc p then [x] else [] | Err _ => [] end.
 Proof. intros; eapply configured_value_written; eassumption. Qed.
@@ -205,12 +206,12 @@ Theorem C10_unknown_name_rejected : forall C c k i,
   In k (map fst c) -> mem_str k (known_names C) = false -> mod_init C c <> Created i.
 Proof. intros; eapply unknown_name_rejected; eassumption. Qed.
 
-(* value / default / constant at any position of a Param entry: when it is no value of the datatype configured by the
-   items BEFORE it (dpre; for the positional value of Param(...) these are all overrides), no module is created *)
-Theorem C10_wrong_type_value_rejected : forall C c i p d pre k v rest dpre e,
+(* value / default / constant anywhere in a Param entry: when it is no value of the configured datatype d' - the class
+   datatype with ALL overrides of the entry applied, whatever the order of the dict - no module is created *)
+Theorem C10_wrong_type_value_rejected : forall C c i p d en k v d' e,
   In p (c_params C) -> p_optional p = false -> p_iscmd p = false -> p_dt p = Some d ->
-  assoc_str (p_name p) c = Some (CDict (pre ++ (k, v) :: rest)) -> mem_str k checked_value_props = true ->
-  configured_dt d (p_unit p) pre = Some dpre -> conv dpre v = Err e -> mod_init C c <> Created i.
+  assoc_str (p_name p) c = Some (CDict en) -> mem_str k checked_value_props = true -> assoc_str k en = Some v ->
+  configured_dt d (p_unit p) en = Some d' -> conv d' v = Err e -> mod_init C c <> Created i.
 Proof. intros; eapply wrong_type_rejected; eassumption. Qed.
 
 Theorem C10_missing_required_value_rejected : forall C c i p,
@@ -225,9 +226,9 @@ Proof. intros; eapply missing_description_rejected; eassumption. Qed.
 
 (* per-item completeness of the error list of a rejected module (the ConfigError raised by Module.__init__), for the
    items the code collects while it applies the configuration: every unknown name, every module property whose value
-   does not validate, every Param entry with a value / default / constant that is no value of the datatype as configured
-   at that position (d1 = datatype of p1, the parameter after the items `pre` before it; named by its first failing
-   property: the loop over one entry stops there) and every missing required
+   does not validate, every Param entry whose properties all apply (p1, final datatype d1) and whose value / default /
+   constant is no value of d1 (named by the first of the three that fails, in this fixed order: the checks stop there)
+   and every missing required
    value are named together, whatever else is wrong in the same module.
    NOT per item (the full statement "every erroneous item is named" does not hold for the code, see notes): the
    consistency checks (mandatory properties, min <= max, missing description) only run when nothing was collected before
@@ -238,10 +239,10 @@ Theorem C10_error_list_names_every_collected_item : forall C c es,
   (forall k, In k (map fst c) -> mem_str k (known_names C) = false -> exists l, In (ErrUnknown l) es /\ In k l) /\
   (forall sp v e, In sp (all_mprops C) -> mprop_cfg_value c (mp_name sp) = Some v ->
      mp_validate (mp_type sp) v = Err e -> is_bad_value e = true -> In (ErrModProp (mp_name sp)) es) /\
-  (forall p pre k v rest p1 d1 e, In p (c_params C) -> p_optional p = false -> p_iscmd p = false ->
-     assoc_str (p_name p) c = Some (CDict (pre ++ (k, v) :: rest)) -> apply_entry_keep p pre = (p1, PGo p1) ->
-     mem_str k checked_value_props = true -> p_dt p1 = Some d1 -> conv d1 v = Err e -> is_bad_value e = true ->
-     In (ErrBadValue (p_name p) k) es) /\
+  (forall p en k v p1 d1 e, In p (c_params C) -> p_optional p = false -> p_iscmd p = false ->
+     assoc_str (p_name p) c = Some (CDict en) -> apply_entry_keep p en = (p1, PGo p1) ->
+     mem_str k checked_value_props = true -> assoc_str k en = Some v -> p_dt p1 = Some d1 -> conv d1 v = Err e ->
+     exists k', mem_str k' checked_value_props = true /\ In (ErrBadValue (p_name p) k') es) /\
   (forall p d, In p (c_params C) -> p_optional p = false -> p_iscmd p = false -> p_dt p = Some d ->
      p_needscfg p = true -> p_value p = None -> assoc_str (p_name p) c = None -> In (ErrNeedsCfg (p_name p)) es).
 Proof.
@@ -298,13 +299,6 @@ Proof. intros; eapply load_rest_prefix; eassumption. Qed.
 (* ---- where the code still violates the property (open finding C10/out-of-range-value-not-written) *)
 Theorem C10_refuted_out_of_range_value_not_written : exists C c i, mod_init C c = Created i /\ never_handed i = true.
 Proof. exact refuted_out_of_range_value_not_written. Qed.
-
-(* proposed finding C10/default-before-datatype-override: a `default` written before a datatype override of the same
-   Param is checked with the class-level datatype and silently dropped afterwards (created module, no default, no value).
-   The positional value of a Param is immune (C10_value_checked_against_configured_datatype). *)
-Theorem C10_refuted_default_before_datatype_override :
-  exists C c i, mod_init C c = Created i /\ default_dropped c i = true.
-Proof. exact refuted_default_before_datatype_override. Qed.
 
 (* non-vacuity of C10_value_checked_against_configured_datatype: Param('abcdef', maxchars=3) is rejected naming
    label.value, Param('\181m/s', isUTF8=True) is applied - the class-level StringType() alone would decide the other way *)
@@ -382,4 +376,4 @@ Print Assumptions C10_export_names_applied.
 Print Assumptions C10_node_rejects_whole.
 Print Assumptions C10_merge_first_file_wins.
 Print Assumptions C10_refuted_out_of_range_value_not_written.
-Print Assumptions C10_refuted_default_before_datatype_override.
+
